@@ -4,12 +4,12 @@
 //
 // C20 — NodePool registration health reflects the recent launch window.
 //
-// States are built through the public API only: an optional SetStatus, then k
-// Update calls with symbolic outcomes. k <= 2*BufferSize reaches every
-// representation state of the ring buffer (len 0..cap with head 0; full with
-// every head position, twice), and Reset/SetStatus lead back to the empty
-// state, so one more operation from each of these states covers histories of
-// any length (DESIGN §7 C20, Appendix D).
+// States are built through the public API only: k1 Update calls with symbolic
+// outcomes, optionally a Reset/SetStatus, then k2 more. k <= 2*BufferSize reaches
+// every representation state of the ring buffer (len 0..cap with head 0; full
+// with every head position, twice), both from the fresh state and from a state
+// emptied after wrap-around, so one more operation from each of these states
+// covers histories of any length (DESIGN §7 C20, Appendix D).
 //
 // verif:assume C20: the window size is nodepoolhealth.BufferSize as read from the source; the NodePool status patch in the registration/liveness controllers is outside this check
 
@@ -23,30 +23,53 @@ import (
 
 const verifUID = types.UID("np-1")
 
-// verifHistory drives s through an arbitrary public history and returns the
-// logical window (oldest..newest, at most BufferSize outcomes) as ghost state.
+// verifHistory drives s through an arbitrary public history — k1 updates, then
+// optionally a Reset or SetStatus, then k2 updates — and returns the logical
+// window (oldest..newest, at most BufferSize outcomes) as ghost state together
+// with the number of inserts since the buffer was last emptied.
 func verifHistory(s *State) (window []bool, inserts int) {
-	switch verifrt.Choice("preset", 0, 3) {
+	k1 := verifrt.Choice("updates1", 0, 2*BufferSize)
+	for i := 0; i < k1; i++ {
+		b := verifrt.Bool("outcome")
+		s.Update(verifUID, b)
+		window = verifPush(window, b)
+	}
+	inserts = k1
+	preset := verifrt.Choice("preset", 0, 4)
+	switch preset {
 	case 1:
 		s.SetStatus(verifUID, StatusUnknown)
+		window = nil
 	case 2:
 		s.SetStatus(verifUID, StatusHealthy)
 		window = []bool{true}
 	case 3:
 		s.SetStatus(verifUID, StatusUnhealthy)
+		window = nil
 		for i := 0; i < int(BufferSize*ThresholdFalse); i++ {
 			window = append(window, false)
 		}
+	case 4:
+		s.nodePoolNodeRegistration(verifUID).Reset()
+		window = nil
 	}
-	inserts = len(window) // SetStatus resets the buffer and inserts these outcomes itself
-	k := verifrt.Choice("updates", 0, 2*BufferSize)
-	for i := 0; i < k; i++ {
+	if preset != 0 {
+		inserts = len(window) // Reset/SetStatus empty the buffer; SetStatus then inserts these outcomes itself
+		if k1 > BufferSize {
+			verifrt.Reach("reset-after-wrap")
+		}
+	}
+	k2 := 0
+	if preset != 0 {
+		k2 = verifrt.Choice("updates2", 0, 2*BufferSize)
+	}
+	for i := 0; i < k2; i++ {
 		b := verifrt.Bool("outcome")
 		s.Update(verifUID, b)
 		window = verifPush(window, b)
 	}
-	inserts += k
-	if len(window) == BufferSize && k > 0 {
+	inserts += k2
+	if len(window) == BufferSize {
 		verifrt.Reach("window-full")
 	}
 	return window, inserts
